@@ -347,4 +347,5 @@ def check(ctx):
     check_m3(ctx, prog)
     check_m4(ctx, prog)
     check_env_strings(ctx, prog)
+    child_exit_rule(ctx, prog, "C12.M2x")      # the caller's exit handlers and stdio buffers are not run / flushed by a failed child
     ctx.floor("C12.M1", 8)
